@@ -1301,6 +1301,9 @@ class Emitter:
                                 code.append('{ int64_t ll2c_t = (int64_t)(%s)%s %s (int64_t)(%s)%s;' % (SXw, X, cop, SXw, Y))
                                 A('ll2c_t >= %d && ll2c_t <= %d' % (-(1 << (w - 1)), (1 << (w - 1)) - 1), 'UB:nsw-' + op, ins.dbg)
                                 code.append('%s = (%s)(%s)ll2c_t; }' % (d, UXw, SXw))
+                            elif w == 64 and op == 'mul' and not isinstance(x, CInt) and not isinstance(y, CInt):
+                                A('!LL2C_SMULOVF64((%s)%s, (%s)%s)' % (SXw, X, SXw, Y), 'UB:nsw-' + op, ins.dbg)
+                                code.append('%s = (%s)LL2C_SMUL64((%s)%s, (%s)%s);' % (d, UXw, SXw, X, SXw, Y))
                             else:
                                 A('!__CPROVER_overflow_%s((%s)%s, (%s)%s)' % (bi_, SXw, X, SXw, Y), 'UB:nsw-' + op, ins.dbg)
                                 code.append('%s = (%s)((%s)%s %s (%s)%s);' % (d, UXw, UXw, X, cop, UXw, Y))
@@ -1653,6 +1656,10 @@ PRELUDE = r'''/* generated by /verif/vf/ll2c.py from clang-14 LLVM IR -- do not 
 #define LL2C_UMULOVF64(x, y) __CPROVER_overflow_mult((uint64_t)(x), (uint64_t)(y))
 #define LL2C_UDIV64(x, y) ((uint64_t)((uint64_t)(x) / (uint64_t)(y)))
 #define LL2C_UREM64(x, y) ((uint64_t)((uint64_t)(x) % (uint64_t)(y)))
+#endif
+#ifndef LL2C_SMUL64
+#define LL2C_SMUL64(x, y) ((int64_t)((uint64_t)(x) * (uint64_t)(y)))
+#define LL2C_SMULOVF64(x, y) __CPROVER_overflow_mult((int64_t)(x), (int64_t)(y))
 #endif
 #ifndef LL2C_SDIV64
 #define LL2C_SDIV64(x, y) ((int64_t)((int64_t)(x) / (int64_t)(y)))
